@@ -101,3 +101,14 @@ contract(E + 'vanDerWaalsEOS.from_critical', P,
                   ('Vc=3nb', 'result.get_Vc(n=2.) == 3 * 2 * result.b'),
                   ('critical-point-is-on-the-isotherm',
                    'result.get_P(T=Tc, V=result.get_Vc(n=1.), n=1.) == Pc')])
+
+# ---- asking for one root must not decide which root a later request gets (any earlier call) --------------------------------
+for first, second in ((True, False), (False, True)):
+    lemma('vdW:root-requested-after-the-other[%s-then-%s]' % ('gas' if first else 'liquid', 'gas' if second else 'liquid'), P,
+          forall=dict(self=vdw(), T=st['T'], P=st['P'], n=st['n']), given=AB + ['T > 0', 'P > 0', 'n > 0'],
+          prove=[('V-is-n-times-the-requested-molar-volume',
+                  '(self.get_V(T=T, P=P, n=n, gas_phase=%s), self.get_V(T=T, P=P, n=n, gas_phase=%s))[1] == n * self.get_Vm(T=T, P=P, gas_phase=%s)'
+                  % (first, second, second)),
+                 ('n-from-that-volume',
+                  '(self.get_n(V=n, T=T, P=P, gas_phase=%s), self.get_n(V=n, T=T, P=P, gas_phase=%s))[1] * self.get_Vm(T=T, P=P, gas_phase=%s) == n'
+                  % (first, second, second))])
